@@ -36,6 +36,7 @@ type World struct {
 	overlay       map[string][]byte
 	contractFiles []string
 	immutables    []Immutable
+	closed        []*ClosedIface
 	missing       []string
 	vacuity       bool
 	repo          string
